@@ -108,4 +108,19 @@ PROPS = {
         "assumptions": COMMON_ASSUME + ["shm/sem name spaces and descriptors are simulated with Linux semantics; mappings are real (memfd) between guard pages",
                                         "simulated processes share one address space; kills happen at IPC system calls"],
     },
+    "C08": {
+        "harness": "shmbuf",
+        "variants": ["A.c11.posix", "T.c11.posix"],
+        "quick_s": 12, "thorough_s": 300,
+        "level": "exploration",
+        "rule": ("one evaluation = one simulated run on one PShmBuffer of capacity S in {1,2,3,5,8,16,64} with 1-3 handles (same or other simulated process) opened with "
+                 "equal, larger or (few runs) smaller size arguments: sequential histories of write/read/free/used/clear with lengths from {0,1,S-1,S,S+1, exactly free, "
+                 "exactly used, free+1, random} compared with a FIFO byte-queue model after every call, or concurrent histories (2-4 tasks) checked by linearizability search; "
+                 "flavour A: ASan-instrumented library, exact-size caller buffers, poisoned segment tail, guard pages; flavour T: race detector on header words and data bytes; "
+                 "distinct = distinct hash of (operation order, event log); non-trivial = more than one context switch or one fired fault"),
+        "probes": ["buf.full_after_write", "buf.empty_after_read", "buf.write_exact_free", "lin.concurrent_history_ok", "sem.wait_blocked"],
+        "components": {"real": ["pshmbuffer.c", "pshm-posix.c", "psemaphore-posix.c", "pipc.c", "pcryptohash-sha1.c", "perror.c", "pmem.c"], "stub": STUB_KERNEL + STUB_PTHREAD},
+        "assumptions": COMMON_ASSUME + ["len == 0 is outside the statement (documented invalid argument): results 0 and -1 accepted, no state change",
+                                        "linearizability search capped at 40 calls and 6e5 nodes (beyond: inconclusive, counted)"],
+    },
 }
